@@ -132,18 +132,38 @@ func Batch() int {
 // Current logs the case about to be run, so that if the process dies the
 // parent can name the witness.
 type Current struct {
-	f *os.File
+	f    *os.File
+	last atomic.Int64
 }
+
+// CaseWatchdog is how long one case may take in a batch child before the
+// child dumps its goroutines and exits (reported as inconclusive, not as a
+// violation: it is a wall-clock backstop).
+var CaseWatchdog = 4 * time.Minute
 
 func OpenCurrent(check string, batch int) *Current {
 	f, _ := os.Create(filepath.Join(OutDir(), fmt.Sprintf("%s.%d.current", check, batch)))
-	return &Current{f}
+	c := &Current{f: f}
+	c.last.Store(time.Now().UnixNano())
+	go func() {
+		for {
+			time.Sleep(5 * time.Second)
+			if time.Since(time.Unix(0, c.last.Load())) > CaseWatchdog {
+				buf := make([]byte, 1<<20)
+				n := runtime.Stack(buf, true)
+				fmt.Fprintf(os.Stderr, "VERIF-WATCHDOG: case exceeded %v\n%s\n", CaseWatchdog, buf[:n])
+				os.Exit(7)
+			}
+		}
+	}()
+	return c
 }
 
 func (c *Current) Set(desc string) {
 	if c == nil || c.f == nil {
 		return
 	}
+	c.last.Store(time.Now().UnixNano())
 	c.f.Truncate(0)
 	c.f.WriteAt([]byte(desc), 0)
 }
@@ -229,6 +249,10 @@ func RunBatches(test string, res *Result, n int, par int, timeout time.Duration,
 			out, _ := os.ReadFile(outFile)
 			if timedOut {
 				res.Inconc(fmt.Sprintf("batch %d: watchdog (%v) fired; last case: %.300s", b, timeout, curb))
+				return
+			}
+			if bytes.Contains(out, []byte("VERIF-WATCHDOG")) {
+				res.Inconc(fmt.Sprintf("batch %d: case watchdog fired; last case: %.300s\n%s", b, curb, tail(out, 1500)))
 				return
 			}
 			reason := classifyDeath(out)
